@@ -70,6 +70,21 @@ class RVar(ModelObject):
         kind = "int" if self.name == "pid" else "real"
         if isinstance(idx, slice) and idx.start is None and idx.stop is None:
             return Arr((total,), lambda k: V.app(f, k), kind)
+        if isinstance(idx, slice) and idx.step is None and (idx.start is None or idx.stop is None or _maybe_negative(idx.start) or _maybe_negative(idx.stop)):
+            # open-ended or negative bounds: Python's slice normalisation (assumed for netCDF4 as for numpy): a negative
+            # bound counts from the end, bounds are clipped to [0, length], an empty range gives an empty array.
+            # Note -0 == 0: `v[-n:]` with n == 0 is the WHOLE variable.
+            t = V.to_z3(total)
+
+            def norm(x, default):
+                if x is None:
+                    return default
+                x = V.to_z3(x)
+                return z3.If(x < 0, z3.If(x + t < 0, 0, x + t), z3.If(x > t, t, x))
+
+            lo, hi = norm(idx.start, z3.IntVal(0)), norm(idx.stop, t)
+            n = z3.If(hi - lo < 0, 0, hi - lo)
+            return Arr((z3.simplify(n),), lambda k: V.app(f, V.s_binop("+", lo, k)), kind)
         if isinstance(idx, slice):
             a, b = idx.start, idx.stop
             cx.oblige(f"reading {self.name}: slice within the instance dimension", z3.And(V.to_z3(a) >= 0, V.to_z3(a) <= V.to_z3(b), V.to_z3(b) <= total), kind="index")
@@ -78,6 +93,18 @@ class RVar(ModelObject):
             cx.oblige(f"reading {self.name}: index within the instance dimension", z3.And(V.to_z3(idx) >= 0, V.to_z3(idx) < total), kind="index")
             return V.app(f, idx)
         raise Unsupported("instance variable index form")
+
+
+def _maybe_negative(x):
+    """a slice bound that is not syntactically known to be >= 0 (a negation or a negative literal)"""
+    if x is None:
+        return False
+    if isinstance(x, int):
+        return x < 0
+    x = z3.simplify(V.to_z3(x))
+    if z3.is_int_value(x):
+        return x.as_long() < 0
+    return z3.is_app(x) and (x.decl().kind() == z3.Z3_OP_UMINUS or (x.decl().kind() == z3.Z3_OP_MUL and z3.is_int_value(x.arg(0)) and x.arg(0).as_long() < 0))
 
 
 class RDim(ModelObject):
@@ -143,7 +170,11 @@ class WarmStart(Spec):
         npid = a.state.attrs["npid"]
         pid = inst_f["pid"]
         k = z3.Int("k_inst")
-        return [("C08/C05: after the restart no pid that occurs anywhere in the restart file can be handed out again (npid > every pid on file)", z3.Implies(z3.And(k >= 0, k < cum_f(nrec)), V.to_z3(npid) > V.app(pid, k)))]
+        vs = a.state.attrs["variables"]
+        arrs = [(nm, v) for nm, v in vs.items() if isinstance(v, Arr)]
+        shared = sorted({n1 for i, (n1, v1) in enumerate(arrs) for n2, v2 in arrs[i + 1:] if v1 is v2} | {n2 for i, (n1, v1) in enumerate(arrs) for n2, v2 in arrs[i + 1:] if v1 is v2})
+        return [("C08/C05 ownership: every variable of the restarted state is its own array object, as after State.append (an in-place update of one variable, e.g. state.active[i] = False, must not change another)" + (f" [shared: {', '.join(shared)}]" if shared else ""), not shared),
+                ("C08/C05: after the restart no pid that occurs anywhere in the restart file can be handed out again (npid > every pid on file)", z3.Implies(z3.And(k >= 0, k < cum_f(nrec)), V.to_z3(npid) > V.app(pid, k)))]
 
     def model(self, cx, a):
         if not self.with_pdim:
@@ -161,4 +192,4 @@ class WarmStart(Spec):
         return None
 
     def compare_roots(self, a, b, result):
-        return [("C08: state after the warm start == last record of the file", a.state.attrs["variables"], b.state.attrs["variables"]), ("C08/C05: npid == number of particles released so far (pids are not reused after a restart)", a.state.attrs["npid"], b.state.attrs["npid"])]
+        return [("C08/C05: state after the warm start == last record of the file", a.state.attrs["variables"], b.state.attrs["variables"]), ("C08/C05: npid == number of particles released so far (pids are not reused after a restart)", a.state.attrs["npid"], b.state.attrs["npid"])]
